@@ -556,7 +556,7 @@ def outline_tail_expr(ctx, fw, fnnode, name, params, args, rtype, mode="V", requ
 
 
 # ----------------------------------------------------------------------------- W9 R-std
-def map_collect_result(fw, fnnode, collect_node, seq_is_vec=True):
+def map_collect_result(fw, fnnode, collect_node, seq_is_vec=True, plain_vec=False, slice_recv=False):
     """R-std: `X.iter().map(F).collect::<anyhow::Result<Vec<_>>>()` -> `v_try_map_collect(X.as_slice(), F)`
     (a *verified* prelude helper: a plain loop that applies F to each element in order and stops at the
     first Err, which is what std's `impl FromIterator<Result<A,E>> for Result<V,E>` does)."""
@@ -571,10 +571,11 @@ def map_collect_result(fw, fnnode, collect_node, seq_is_vec=True):
         raise WeaveError("%s:%d R-std map/collect: receiver of map is not .iter()" % (fw.rel, fw.line_of(collect_node["span"][0])))
     it = kids[0]
     tf = fw.text(collect_node["turbofish_span"]) if collect_node["turbofish_span"] else ""
-    if "Result<Vec<_>>" not in tf.replace(" ", ""):
-        raise WeaveError("%s:%d R-std map/collect: not collected into Result<Vec<_>>" % (fw.rel, fw.line_of(collect_node["span"][0])))
+    helper = "v_try_map_collect" if "Result<Vec<_>>" in tf.replace(" ", "") else ("v_map_collect" if (tf == "" and plain_vec) or "Vec<_>" in tf else None)
+    if helper is None:
+        raise WeaveError("%s:%d R-std map/collect: not collected into Vec<_> / Result<Vec<_>>" % (fw.rel, fw.line_of(collect_node["span"][0])))
     x = fw.text(it["receiver_span"])
-    fw.replace(collect_node["span"][0], mp["paren_span"][0] + 1, "crate::verif_prelude::v_try_map_collect(%s.as_slice(), " % " ".join(x.split()), "W9-R-std-map-collect")
+    fw.replace(collect_node["span"][0], mp["paren_span"][0] + 1, "crate::verif_prelude::%s(%s%s, " % (helper, " ".join(x.split()), "" if slice_recv else ".as_slice()"), "W9-R-std-map-collect")
     fw.replace(mp["paren_span"][1] - 1, collect_node["span"][1], ")", "W9-R-std-map-collect")
     return mp
 
@@ -669,9 +670,10 @@ def outline_closure_body(ctx, fw, cnode, name, params, args, rtype, mode="V", re
     """W5 (closure form): the body block of a closure becomes a free function `name`; the closure only calls it.
     Used to put the arithmetic inside `iter.try_fold(init, |acc, x| { .. })` under contract although the
     iterator adapter itself cannot be specified."""
-    if not cnode["body_is_block"]:
-        raise WeaveError("%s: outline_closure_body %s: closure body is not a block" % (fw.rel, name))
-    s, e = cnode["body_span"][0] + 1, cnode["body_span"][1] - 1
+    if cnode["body_is_block"]:
+        s, e = cnode["body_span"][0] + 1, cnode["body_span"][1] - 1
+    else:
+        s, e = cnode["body_span"]
     top = fw.byid[cnode["fn"]]
     while top["fn"] >= 0:
         top = fw.byid[top["fn"]]
@@ -699,3 +701,17 @@ def outline_closure_body(ctx, fw, cnode, name, params, args, rtype, mode="V", re
     ctx.units[unit] = {"unit": unit, "file": fw.rel, "fn": name, "mode": mode, "tags": sorted(utags), "span": [s, e],
                        "line": fw.line_of(s), "end_line": fw.line_of(e), "segment_of": fw.fn_qualname(top)}
     return unit
+
+
+def map_sum(fw, fnnode, sum_node, vals):
+    """R-std: `X.iter().map(F).sum()` -> `v_sum_map(X.as_slice(), F, Ghost(vals))` (verified helper; no-overflow is the caller's obligation)"""
+    kids = [c for c in fw.children.get(sum_node["id"], []) if c["kind"] == "method_call" and c["span"] == sum_node["receiver_span"]]
+    if len(kids) != 1 or kids[0]["method"] != "map":
+        raise WeaveError("%s:%d R-std map/sum: receiver of sum is not .map(..)" % (fw.rel, fw.line_of(sum_node["span"][0])))
+    mp = kids[0]
+    kids = [c for c in fw.children.get(mp["id"], []) if c["kind"] == "method_call" and c["span"] == mp["receiver_span"]]
+    if len(kids) != 1 or kids[0]["method"] != "iter":
+        raise WeaveError("%s:%d R-std map/sum: receiver of map is not .iter()" % (fw.rel, fw.line_of(sum_node["span"][0])))
+    x = " ".join(fw.text(kids[0]["receiver_span"]).split())
+    fw.replace(sum_node["span"][0], mp["paren_span"][0] + 1, "crate::verif_prelude::v_sum_map(%s.as_slice(), " % x, "W9-R-std-map-sum")
+    fw.replace(mp["paren_span"][1] - 1, sum_node["span"][1], ", Ghost(%s))" % vals, "W9-R-std-map-sum")
